@@ -172,9 +172,13 @@ def _use_everything(rec, commands):
                                len(payload) - 5])):
             if 4 <= cut < len(payload):
                 p = payload[:cut]
-                common.lib_unmarshal(struct.pack('>BHI', 1, 2, len(p)) + p +
-                                     b'\xce')
+                u_ = common.lib_unmarshal(struct.pack('>BHI', 1, 2, len(p)) +
+                                          p + b'\xce')
+                if not u_.ok:
+                    n += common.handle_failed_decode(u_.exc)
                 n += 1
+        unchanged('a decode of %s that failed part-way and its error '
+                  'handling' % sp.name)
     # what peers of other protocol revisions send: methods of AMQP 0-8 / 0-9
     # that 0-9-1 dropped (access.request, basic.recover-async siblings, the
     # file / stream / tunnel / dtx / test classes), every other combination
@@ -218,6 +222,36 @@ def _use_everything(rec, commands):
                         n += 1
                     except refcodec.RefError:
                         pass
+    # objects whose trailing / middle attributes were deleted, then printed
+    # and iterated (what a partly filled object looks like)
+    for idx, cls in sorted(commands.INDEX_MAPPING.items()):
+        names_ = list(getattr(cls, '__slots__', ()))
+        for cutfrom in sorted({len(names_) - 1, len(names_) // 2, 0}):
+            if not names_ or cutfrom < 0:
+                continue
+            c = call(cls)
+            if not c.ok:
+                continue
+            for a_ in names_[cutfrom:]:
+                try:
+                    delattr(c.value, a_)
+                except Exception:
+                    pass
+            for fn in (repr, list, dict, len, lambda x: [k for k in x]):
+                call(fn, c.value)
+                n += 1
+        unchanged('iterating a %s with deleted attributes' % cls.__qualname__)
+    P_ = commands.Basic.Properties
+    for a_ in ('cluster_id', 'app_id', 'content_type'):
+        c = call(P_, app_id='x')
+        if c.ok:
+            try:
+                delattr(c.value, a_)
+            except Exception:
+                pass
+            for fn in (repr, list, dict, len):
+                call(fn, c.value)
+        unchanged('iterating Properties without ' + a_)
     # client code that subclasses the generated classes
     made = []
     for idx, cls in sorted(commands.INDEX_MAPPING.items()):
